@@ -4,8 +4,10 @@
 -/
 import Wbxml.Model.EncXml
 import Wbxml.Spec.XmlText
+import Wbxml.Lemmas.XmlPrint
+import Wbxml.Lemmas.Ident
 namespace Wbxml.Props.C05
-open Wbxml Wbxml.Model Wbxml.Spec
+open Wbxml Wbxml.Model Wbxml.Spec Wbxml.Lemmas.XmlPrint
 
 /-- What one byte becomes in `xml_encode_text_entities`. -/
 def esc1 (canonical : Bool) (ch : UInt8) : Bytes :=
@@ -153,5 +155,170 @@ theorem header_has_doctype (lang : Lang) (gen : Nat) :
   simp [xmlHeader, List.isPrefixOf]
 
 example : unescape (xmlEscape false b!"a<b&\"c'>") = b!"a<b&\"c'>" := by decide
+
+/-! ## CDATA sections -/
+
+/-- **`]]>` never ends a section early.** Whatever bytes `s` a CDATA text holds, the section the
+    printer writes — `<![CDATA[`, `cdataText s`, `]]>` — read back as XML reads runs of CDATA
+    sections (content up to the first `]]>`; an immediately following section continues the
+    character data) denotes exactly `s`. So `cdataText s` contains `]]>` only as part of the inserted
+    `]]]]><![CDATA[>`, where it closes one section and the next is opened at once. -/
+theorem cdata_text_no_terminator (s : Bytes) :
+    readCdata (b!"<![CDATA[" ++ cdataText s ++ b!"]]>") = some s := by
+  show readIn (cdataText s ++ [93, 93, 62]) = some s
+  exact readIn_cdataText s
+
+/-- Text without `]]>` is written as is. -/
+example : cdataText b!"a]]b>" = b!"a]]b>" := by decide
+example : cdataText b!"x]]>y" = b!"x]]]]><![CDATA[>y" := by decide
+example : readCdata b!"<![CDATA[x]]]]><![CDATA[>y]]>" = some b!"x]]>y" := by decide
+/-- the reader refuses an unterminated section and trailing garbage -/
+example : readCdata b!"<![CDATA[abc" = none ∧ readCdata b!"<![CDATA[abc]]>x" = none := by decide
+
+/-- **The WBXML tree builder never opens a CDATA section directly inside a CDATA section**: over any
+    event sequence, from the initial context, no CDATA frame sits on a CDATA frame (the printer
+    therefore never writes `<![CDATA[` twice in a row). -/
+theorem cdata_never_nested (main : List Lang) (emb : Nat → Bytes → Option Tree) (events : List Event) :
+    stackOk (events.foldl (buildStep main emb) {}) = true := by
+  suffices h : ∀ (b : BState), stackOk b = true → stackOk (events.foldl (buildStep main emb) b) = true from
+    h {} rfl
+  induction events with
+  | nil => intro b h; exact h
+  | cons e rest ih => intro b h; exact ih _ (buildStep_stackOk main emb b e h)
+
+/-- One step: the invariant is preserved from any context that satisfies it. -/
+theorem cdata_never_nested_step (main : List Lang) (emb : Nat → Bytes → Option Tree) (b : BState) (e : Event)
+    (h : stackOk b = true) : stackOk (buildStep main emb b e) = true := buildStep_stackOk main emb b e h
+
+/-- Events of `<Item><Meta><Type>text/x-vcard</Type></Meta><Data>abc<Meta><Type>text/x-vcard</Type></Meta>
+    <Data>x</Data></Data></Item>`. -/
+def nestedWitness : List Event :=
+  let nItem : Name := .literal b!"Item"
+  let nMeta : Name := .literal b!"Meta"
+  let nType : Name := .literal b!"Type"
+  let nData : Name := .literal b!"Data"
+  [ .startDoc 106 2101, .startElt nItem [],
+    .startElt nMeta [], .startElt nType [], .chars b!"text/x-vcard", .endElt nType, .endElt nMeta,
+    .startElt nData [], .chars b!"abc",
+    .startElt nMeta [], .startElt nType [], .chars b!"text/x-vcard", .endElt nType, .endElt nMeta,
+    .startElt nData [], .chars b!"x", .endElt nData,
+    .endElt nData, .endElt nItem, .endDoc ]
+
+def cdataDepth : Nat → Node → Nat
+  | 0, _ => 0
+  | f + 1, .cdata kids => 1 + (kids.map (cdataDepth f)).foldl max 0
+  | f + 1, .elt _ _ kids => (kids.map (cdataDepth f)).foldl max 0
+  | _ + 1, _ => 0
+
+/-- **`cdata_never_nested` does not extend through elements** (defect candidate): an element start
+    while a CDATA section is open is attached *inside* the CDATA node, and a `Data` element there
+    whose `Meta/Type` (found among the CDATA node's children) is a vObject type opens a second
+    CDATA section inside the first. The real `wbxml2xml` prints `<![CDATA[abc<Meta>…<Data><![CDATA[x]]>
+    </Data>]]>` for the corresponding 71-byte SyncML document, which no XML parser accepts. -/
+theorem cdata_nested_through_element :
+    ((nestedWitness.foldl (buildStep [] (fun _ _ => none)) {}).root.map (cdataDepth 10)) = some 2 := by
+  decide +kernel
+
+/-! ## Attributes -/
+
+/-- **What `xml_encode_attr` writes**: a blank, the name, `="`, the escaped value (read as a C string),
+    `"` — and the value between the quotes contains no quote and no `<`, and unescapes to exactly
+    the C-string value. -/
+theorem attr_value_roundtrip (c : XCfg) (a : Attr) (st : XSt) :
+    (xmlAttr c a st).out = st.out ++ [32] ++ cstrOf a.name.xmlName ++ b!"=\"" ++
+        xmlEscape (c.gen == 2) (cstrOf a.value) ++ [34] ∧
+    unescape (xmlEscape (c.gen == 2) (cstrOf a.value)) = cstrOf a.value ∧
+    (∀ b ∈ xmlEscape (c.gen == 2) (cstrOf a.value), b ≠ 34 ∧ b ≠ 60) := by
+  refine ⟨rfl, unescape_escape _ _, ?_⟩
+  intro b hb
+  have := escape_has_no_markup _ _ b hb
+  simp only [isMarkup, Bool.or_eq_false_iff, beq_eq_false_iff_ne, ne_eq] at this
+  exact ⟨this.1.2, this.1.1.1⟩
+
+/-- The whole attribute list of an element: the attributes in order, nothing between them. -/
+theorem attr_list_bytes (c : XCfg) (attrs : List Attr) (st : XSt) :
+    (attrs.foldl (fun st a => xmlAttr c a st) st).out =
+      st.out ++ attrs.flatMap (attrBytes (c.gen == 2)) := by
+  rw [xmlAttrs_out]
+
+/-! ## Indentation -/
+
+/-- **No indentation inside an element that has only text.** In indented generation (`gen = 1`,
+    any indentation width, any nesting depth `st.indent`), an element all of whose children are
+    text nodes is written as: the indentation, `<name`, the namespace declaration if any, the
+    attributes, `>`, then *immediately* `texts`, then *immediately* `</name>` and a line feed —
+    where `texts` is exactly what compact generation (`gen = 0`, which has no indentation anywhere)
+    writes for the children. -/
+theorem no_indent_in_text_only_elements (c : XCfg) (parent : Parent) (f : Nat) (name : Name)
+    (attrs : List Attr) (kids : List Node) (st st' : XSt) (hk : kids ≠ []) (ht : allText kids = true)
+    (h : xmlNode { c with gen := 1 } parent (f + 1) (.elt name attrs kids) st = .ok st') :
+    ∃ texts r,
+      xmlNodes { c with gen := 0 } (.elt name) f kids { st with out := [], curTag := tagOf name } = .ok r ∧
+      r.out = texts ∧
+      st'.out = st.out ++ spaces (st.indent.toNat * c.delta.toNat) ++ [60] ++ name.xmlName ++
+        nsDecl c parent name ++ (if c.lang.attrs.isSome then attrs.flatMap (attrBytes false) else []) ++
+        [62] ++ texts ++ b!"</" ++ name.xmlName ++ [62, 10] := by
+  have hne : kids.isEmpty = false := by cases kids with | nil => exact absurd rfl hk | cons _ _ => rfl
+  have hce := allText_noElt kids ht
+  simp only [xmlNode, bind, Except.bind, xmlTag_out, xmlAttrs_out, xmlEndAttrs, xmlEndTag, hne, hce,
+    Bool.and_false, Bool.false_eq_true, ↓reduceIte, pure, Except.pure] at h
+  split at h
+  · cases h
+  · rename_i r1 h1
+    simp only [Except.ok.injEq] at h
+    obtain ⟨x, hx, hp⟩ := xmlNodes_texts c (.elt name) kids ht f _ r1 h1
+    refine ⟨x, { r1 with out := x }, ?_, rfl, ?_⟩
+    · have := hp []
+      simp only [List.nil_append] at this
+      rw [← this]
+      congr 1
+      cases c.lang.attrs <;> simp
+    · subst h
+      simp only [hx]
+      cases c.lang.attrs <;> simp [nsDecl, newLine]
+
+/-- One text child: the bytes between `>` and `</` are what `xml_encode_text` appends for it —
+    nothing (ignorable white space) or its escaped form. -/
+theorem text_piece_shape (c : XCfg) (s : Bytes) (st r : XSt) (h : xmlText c s st = .ok r) :
+    ∃ x, r.out = st.out ++ x ∧ ∀ o, xmlText c s { st with out := o } = .ok { r with out := o ++ x } :=
+  xmlText_piece c s st r h
+
+/-! ## DOCTYPE -/
+
+/-- **The DOCTYPE is the language's, exactly as registered**: root element name, then
+    `PUBLIC "<public id>" "<DTD>"` for a language with a (non-empty) XML public identifier. -/
+theorem doctype_matches_language (lang : Lang) (gen : Nat) (p : Bytes) (hp : lang.pub.xmlId = some p)
+    (hne : p ≠ []) :
+    xmlHeader lang gen =
+      b!"<?xml version=\"1.0\"?>" ++ (if gen == 1 then [10] else []) ++
+      b!"<!DOCTYPE " ++ lang.pub.root.getD [] ++ b!" PUBLIC \"" ++ p ++ b!"\" \"" ++ lang.pub.dtd.getD [] ++
+      b!"\">" ++ (if gen == 1 then [10] else []) := by
+  have : p.isEmpty = false := by cases p with | nil => exact absurd rfl hne | cons _ _ => rfl
+  simp [xmlHeader, hp, this, newLine]
+
+/-- … and `SYSTEM "<DTD>"` for a language without one. -/
+theorem doctype_system_only (lang : Lang) (gen : Nat) (hp : lang.pub.xmlId = none ∨ lang.pub.xmlId = some []) :
+    xmlHeader lang gen =
+      b!"<?xml version=\"1.0\"?>" ++ (if gen == 1 then [10] else []) ++
+      b!"<!DOCTYPE " ++ lang.pub.root.getD [] ++ b!" SYSTEM \"" ++ lang.pub.dtd.getD [] ++
+      b!"\">" ++ (if gen == 1 then [10] else []) := by
+  rcases hp with hp | hp <;> simp [xmlHeader, hp, newLine]
+
+/-- The identifiers of that DOCTYPE are recognised back: `wbxml_tables_search_table` on the public
+    id the printer wrote selects the first registered entry with that public id (for the
+    regenerated tables: the language itself, `Props.C10.gen_doctype_route`). -/
+theorem doctype_recognised (main : List Lang) (lang : Lang) (p : Bytes) (hp : lang.pub.xmlId = some p)
+    (hl : lang ∈ main) (sysid root : Option Bytes) :
+    ∃ l', searchTable main (some p) sysid root = some l' ∧
+      main.find? (Wbxml.Lemmas.Ident.pubMatch p) = some l' ∧ Wbxml.Lemmas.Ident.pubMatch p l' = true := by
+  have hm : Wbxml.Lemmas.Ident.pubMatch p lang = true := by
+    simp [Wbxml.Lemmas.Ident.pubMatch, hp, caseEq]
+  cases hf : main.find? (Wbxml.Lemmas.Ident.pubMatch p) with
+  | none => exact absurd hm (by simpa using List.find?_eq_none.mp hf lang hl)
+  | some l' =>
+    refine ⟨l', ?_, rfl, List.find?_some hf⟩
+    rw [Wbxml.Lemmas.Ident.searchTable_eq]
+    simp [Wbxml.Lemmas.Ident.byPub, hf]
+
 
 end Wbxml.Props.C05
